@@ -198,7 +198,7 @@ def normalisation_guard(ctx, rule="R08.4"):
             continue
         if want is not None:
             ms = small.monomials(rets[0].value)
-            ok_e = ms == [(1, (par, par), ())] or ast.unparse(rets[0].value) == "%s ** 2" % par
+            ok_e = ms == [(1, (par, par), ())] or ast.unparse(rets[0].value) in ("%s ** 2" % par, "%s ** 2.0" % par, "pow(%s, 2)" % par, "pow(%s, 2.0)" % par)
         else:
             ok_e = ast.unparse(rets[0].value) in ("sqrt(fabs(%s))" % par, "sqrt(abs(%s))" % par, "fabs(%s) ** 0.5" % par)
         ctx.check(ok_e, rule, "%s::%s" % (EST, est), "per-pair term is %s: %s" % ("the squared difference (no further factor)" if want is not None else "sqrt(|difference|)", ast.unparse(rets[0].value)), "estimator-term")
